@@ -99,8 +99,13 @@ RELS = ['==', '!=', '<', '<=', '>', '>=']
 # Shapes excluded from generation because they hit a suspected finding on the unchanged tree (README,
 # "Suspected findings"); every exclusion is counted.  CXXGEN_INCLUDE_FINDINGS=1 generates them anyway.
 EXCLUDED = {'mpq_shift_in_place': 0, 'mpf_assign_rvalue_other_precision': 0}
-INCLUDE_FINDINGS = os.environ.get('CXXGEN_INCLUDE_FINDINGS') == '1'
-if INCLUDE_FINDINGS: BLITS['long'].append('(-9223372036854775807L-1)')
+# Exclusions are per known finding: CXXGEN_KNOWN = comma separated ids listed as status "known" in
+# /verif/known_findings.json (passed by props/C20_run.py).  An id that is not listed is NOT excluded, so a finding
+# that was fixed (or never confirmed) is generated and would be reported again.  CXXGEN_INCLUDE_FINDINGS=1 = none excluded.
+KNOWN = set(x for x in os.environ.get('CXXGEN_KNOWN', '').split(',') if x)
+if os.environ.get('CXXGEN_INCLUDE_FINDINGS') == '1': KNOWN = set()
+SKIP_LONG_MIN = bool(KNOWN & {'long_min_div_minus_one', 'long_min_negation_ub'})
+if not SKIP_LONG_MIN: BLITS['long'].append('(-9223372036854775807L-1)')
 
 
 class N:
@@ -302,7 +307,7 @@ class Emit:
         x, y = ops
         if op in ('/', '%'): s.L.append('if (%s(%s) == 0) return rt::SKIP_DIV0;' % (SGN[cls], y))
         for k in (a, b):
-            if k.cls == 'B' and k.k == 'b' and k.bt == 'long' and not INCLUDE_FINDINGS:
+            if k.cls == 'B' and k.k == 'b' and k.bt == 'long' and SKIP_LONG_MIN:
                 # suspected findings long_min_negation_ub / long_min_div_minus_one: mpirxx.h negates the long operand
                 s.L.append('if ((%s) == LONG_MIN) return rt::SKIP_FINDING;' % k.txt)
         t = s.tmp(cls, P)
@@ -432,12 +437,12 @@ def excluded_shape(R):
     """True: regenerate.  (1) mpq_class << / >> evaluated in place (operand is a sub-expression or the
     assignment target): mpq_mul_2exp/mpq_div_2exp are wrong for dst==src.  (2) f = mpf_class(x, P) with
     P != precision of f: the C++11 move assignment swaps, so f changes precision (fixed up, not rejected)."""
-    if INCLUDE_FINDINGS: return False
-    if R.cls == 'F' and R.kind == 'assign' and R.form == '=' and R.trees[0].k == 'conv':
+    if 'mpf_assign_rvalue_other_precision' in KNOWN and R.cls == 'F' and R.kind == 'assign' and R.form == '=' and R.trees[0].k == 'conv':
         dest = R.precs[VARS['F'].index(R.target)] if R.target else R.tprec
         if R.trees[0].prec != dest:
             EXCLUDED['mpf_assign_rvalue_other_precision'] += 1
             R.trees[0].prec = dest
+    if 'mpq_shift_in_place' not in KNOWN: return False
     bad = R.kind == 'compound' and R.cls == 'Q' and R.op in ('<<', '>>')
     for tr in R.trees:
         for n in tr.walk():
